@@ -86,7 +86,10 @@ impl ShapeIndex {
 fn read_index_file<T: Read>(mut source: T) -> Result<Vec<ShapeIndex>, Error> {
     let header = header::Header::read_from(&mut source)?;
 
-    let num_shapes = ((header.file_length * 2) - header::HEADER_SIZE) / INDEX_RECORD_SIZE as i32;
+    // The length comes from the file: compute with 64 bits, a length shorter than
+    // the header means there is no entry.
+    let num_shapes = ((i64::from(header.file_length) * 2) - i64::from(header::HEADER_SIZE)).max(0)
+        / INDEX_RECORD_SIZE as i64;
     let mut shapes_index = Vec::<ShapeIndex>::with_capacity(num_shapes as usize);
     for _ in 0..num_shapes {
         let offset = source.read_i32::<BigEndian>()?;
@@ -99,12 +102,27 @@ fn read_index_file<T: Read>(mut source: T) -> Result<Vec<ShapeIndex>, Error> {
     Ok(shapes_index)
 }
 
+/// Position in bytes of the shape pointed to by the index entry
+/// (the offset comes from the file: it may be negative)
+fn shape_offset_in_bytes(shape_idx: &ShapeIndex) -> Result<u64, Error> {
+    u64::try_from(i64::from(shape_idx.offset) * 2).map_err(|_| {
+        Error::IoError(std::io::Error::new(
+            std::io::ErrorKind::InvalidData,
+            "negative shape offset in the index",
+        ))
+    })
+}
+
 /// Reads and returns one shape and its header from the source
 fn read_one_shape_as<T: Read, S: ReadableShape>(
     mut source: &mut T,
 ) -> Result<(record::RecordHeader, S), Error> {
     let hdr = record::RecordHeader::read_from(&mut source)?;
-    let record_size = hdr.record_size * 2;
+    // A record holds at least its shape type (2 words); its length in bytes must fit an i32
+    let record_size = match hdr.record_size.checked_mul(2) {
+        Some(size) if hdr.record_size >= 2 => size,
+        _ => return Err(Error::InvalidShapeRecordSize),
+    };
     let shape = S::read_from(&mut source, record_size)?;
     Ok((hdr, shape))
 }
@@ -150,9 +168,15 @@ impl<T: Read + Seek, S: ReadableShape> Iterator for ShapeIterator<'_, T, S> {
                 // Its 'safer' to seek to the shape offset when we have the `shx` file
                 // as some shapes may not be stored sequentially and may contain 'garbage'
                 // bytes between them
-                let start_pos = shapes_indices.next()?.offset * 2;
-                if start_pos != self.current_pos as i32 {
-                    if let Err(err) = self.source.seek(SeekFrom::Start(start_pos as u64)) {
+                let start_pos = match shape_offset_in_bytes(shapes_indices.next()?) {
+                    Ok(pos) => pos,
+                    Err(err) => {
+                        self.failed = true;
+                        return Some(Err(err));
+                    }
+                };
+                if start_pos != self.current_pos as u64 {
+                    if let Err(err) = self.source.seek(SeekFrom::Start(start_pos)) {
                         self.failed = true;
                         return Some(Err(err.into()));
                     }
@@ -383,14 +407,15 @@ impl<T: Read + Seek> ShapeReader<T> {
         // The iteration starts at the shape `seek` was last called with, if any,
         // and at the first shape of the file otherwise, wherever the source is now.
         let first = self.seeked_index.take().unwrap_or(0);
-        let file_length = (self.header.file_length as usize) * 2;
+        let file_length = (self.header.file_length.max(0) as usize) * 2;
         let (start_pos, shapes_indices) = match self.shapes_index.as_ref() {
             Some(index) => {
                 let remaining = &index[first.min(index.len())..];
+                // (an invalid offset is reported by the first call to `next`)
                 let start_pos = remaining
                     .first()
-                    .map(|shape_idx| (shape_idx.offset as usize).wrapping_mul(2))
-                    .unwrap_or(file_length);
+                    .and_then(|shape_idx| shape_offset_in_bytes(shape_idx).ok())
+                    .unwrap_or(file_length as u64) as usize;
                 (start_pos, Some(remaining.iter()))
             }
             None => (header::HEADER_SIZE as usize, None),
@@ -500,12 +525,11 @@ impl<T: Read + Seek> ShapeReader<T> {
     /// was not constructed with [ShapeReader::with_shx]
     pub fn seek(&mut self, index: usize) -> Result<(), Error> {
         if let Some(ref shapes_index) = self.shapes_index {
-            let offset = shapes_index
-                .get(index)
-                .map(|shape_idx| (shape_idx.offset * 2) as u64);
-
-            match offset {
-                Some(n) => self.source.seek(SeekFrom::Start(n)),
+            match shapes_index.get(index) {
+                Some(shape_idx) => {
+                    let offset = shape_offset_in_bytes(shape_idx)?;
+                    self.source.seek(SeekFrom::Start(offset))
+                }
                 None => self.source.seek(SeekFrom::End(0)),
             }?;
             self.seeked_index = Some(index.min(shapes_index.len()));
